@@ -47,12 +47,17 @@ CLAIM = dict(
           "arguments were passed; the core p of inner requests does for exactly 17 methods, 5 of which take p themselves "
           "(chip_independent_of_passing_style, core_from_context_methods, core_style_dependent_methods, "
           "core_independent_of_passing_style).  The signature of every decorated method of both controllers is regenerated from "
-          "source and proved well-formed for the decorator.  Tied to the code on every run: every decorated method x passing style "
+          "source and proved well-formed for the decorator; every decorated method a decorated method calls directly in the "
+          "source (AST, incl. bound methods handed to map) must be an inner call of its wire rule - count_cores_in_state's "
+          "per-state self-dispatch included - else the check reports a broken obligation.  Tied to the code on every run: every decorated method x passing style "
           "(positional/keyword/context/default/mixed) x nesting, boards passed as lists / tuples, injected SCP failures at the "
           "n-th request, failed SDRAM / router allocation, applications that do not load, IOBUF chains, before_close callbacks "
           "(raising, re-entrant, on application contexts, registered once on a kept object), nested application blocks, context "
           "objects kept and entered again while active / after exit / from nested application blocks / with exceptions and "
-          "update_current_context inside, discover_connections run for real on fake "
+          "update_current_context inside, an 'explicit != context != default' stream over ALL decorated methods (every contextual "
+          "argument explicit, positionally and by keyword, under a block that sets every contextual name to something else), "
+          "collection-valued arguments (boards, leds, states) as int / list / tuple / set / range / iterator / generator / map by "
+          "position, keyword and context, discover_connections run for real on fake "
           "machines of several sizes (dead chips, Ethernet down, boards that do not answer) with every later datagram judged "
           "against the connection table in force when it was sent, plus random programs with all of these, run on the real "
           "controllers over recording fake connections; resolved keyword dictionaries, rejections, context snapshots compared "
@@ -74,7 +79,11 @@ CLAIM = dict(
           "wait_for_cores_to_reach_state / load_application are driven like every other method.  Restore verdict: after leaving "
           "a block the arguments in force must equal those before it whenever the Lean model says they are restored (they are "
           "not only when update_current_context inside the block changed an object that is also active below it - documented "
-          "aliasing, tagged exit:aliased-update, compared with the model exactly).  Not driven: one context object shared by "
+          "aliasing: an update made through an object that is also active below IS the caller updating that enclosing context; "
+          "tagged exit:aliased-update, compared with the model exactly).  The board mask is the model's `maskVal` (the code's "
+          "sum of 1 << b over the boards named, in whatever collection they come); that every named board's bit is set is "
+          "checked on every datagram by exact comparison with it, not stated as a separate theorem.  A single-pass iterable "
+          "serves one command (it is exhausted afterwards - also in the unchanged code): the generators give it one.  Not driven: one context object shared by "
           "two controllers (a context pushes onto the stack of the controller that created it), callbacks registered while the "
           "block is running."),
     technique="Lean 4 theorems over a hand-written model + translator for signatures/constants + differential correspondence + Lean spec as oracle")
@@ -104,7 +113,12 @@ RULE = ("systematic part: every decorated method of MachineController and BMPCon
         "with a command after every exit; application a / application(b) / a again; object used again after exit with an update "
         "made during the first use; one object entered from nested application blocks; exception raised inside the re-entered "
         "block; update_current_context inside the re-entered block; callbacks registered once on a kept object; BMP; a b a b a; "
-        "random interleavings of three objects with overlapping arguments, blocks and raises); random part: with-structured programs of depth <= 4 with blocks over random "
+        "random interleavings of three objects with overlapping arguments, blocks and raises); set_led / set_power x board as int, "
+        "list, tuple, set, range, iterator, generator, map x positional / keyword / context (one command per context); every "
+        "decorated method x {positional, keyword} with ALL its contextual arguments explicit inside a block that sets every "
+        "contextual name of the controller to other values (initial context changed too in half of them), with random faults, "
+        "application() included; leds and states (count_cores_in_state, wait_for_cores_to_reach_state) drawn from single "
+        "values, lists, tuples, sets, ranges and single-pass iterables of names or AppState numbers in every generator; random part: with-structured programs of depth <= 4 with blocks over random "
         "subsets of argument names, a pool of kept context / application objects entered any number of times, before_close "
         "callbacks, application blocks (explicit / contextual id, failing stop, user "
         "callbacks), update_current_context, raise, try/except, calls of random methods (incl. discover_connections) in random "
@@ -324,11 +338,48 @@ class World(object):
 # --------------------------------------------------------------------------
 # values
 # --------------------------------------------------------------------------
+_WRAPPED = {}      # id(one-shot iterator) -> the protocol value it was made from
+_KEEP = []         # keeps those iterators alive (ids must stay unique during a run)
+ONE_SHOT = ("iter", "gen", "map")
+KINDS = ("list", "tuple", "set", "range") + ONE_SHOT
+
+
+def wrap(kind, items, canon):
+    """the Python collection of `kind` holding `items` (in this iteration order)"""
+    items = list(items)
+    if kind == "list":
+        return items
+    if kind == "tuple":
+        return tuple(items)
+    if kind == "set":
+        return set(items)
+    if kind == "range":
+        return range(items[0], items[-1] + 1)
+    o = iter(items) if kind == "iter" else (t for t in items) if kind == "gen" else map(lambda t: t, items)
+    _WRAPPED[id(o)] = canon       # a single-pass iterable cannot be looked into without consuming it
+    _KEEP.append(o)
+    return o
+
+
+def ints_token(items, kind, rng=None):
+    """protocol value for a collection of ints of the given kind (the model sees the iteration order)"""
+    items = list(items)
+    if kind == "set":
+        items = list(set(items))
+    if kind == "range":
+        items = list(range(min(items), min(items) + len(set(items))))
+    return {"l": items} if kind == "list" else {"l": items, "k": kind}
+
+
 def to_val(v):
     """Python value -> JSON value of the line protocol (Val of the model)"""
     from rig.utils.contexts import Required
     if v is Required:
         return {"req": 1}
+    if id(v) in _WRAPPED:
+        return _WRAPPED[id(v)]
+    if isinstance(v, (set, frozenset, range)) and v and all(isinstance(t, int) and not isinstance(t, bool) for t in v):
+        return {"l": [int(t) for t in v]}
     if v is None or isinstance(v, bool):
         return v
     if isinstance(v, int):
@@ -352,8 +403,10 @@ def from_val(v, objs=None):
         if "req" in v:
             return Required
         if "l" in v:
-            return tuple(v["l"]) if v.get("t") else list(v["l"])
+            return wrap(v.get("k") or ("tuple" if v.get("t") else "list"), v["l"], {"l": list(v["l"])})
         t = v["o"]
+        if v.get("k") in ONE_SHOT:
+            return wrap(v["k"], ast.literal_eval(t), {"o": t})
         if t == "<aplx>":
             return aplx_file()
         if t == "<rte>" or t.startswith("<rt:"):
@@ -377,8 +430,8 @@ _OBJS = {}
 
 
 def obj_token(o):
-    if isinstance(o, dict) and "l" in o:
-        return o                     # already a protocol value (a list / tuple of ints)
+    if isinstance(o, dict) and ("l" in o or "o" in o):
+        return o                     # already a protocol value (a collection of ints, a one-shot iterable)
     return to_val(o)
 
 
@@ -391,6 +444,28 @@ def aplx_file():
     return _APLX[0]
 
 
+def some_leds(rng):
+    """`led : int or iterable`"""
+    if rng.random() < 0.5:
+        return rng.randrange(8)
+    return ints_token(rng.sample(range(8), rng.randrange(1, 4)), rng.choice(KINDS))
+
+
+def some_states(rng):
+    """`state : string, AppState value or iterable of them`"""
+    r = rng.random()
+    if r < 0.25:
+        return rng.choice(["wait", "run", 7])
+    names = rng.sample(["wait", "run", "sync0", "sync1", "pause", "init"], rng.randrange(1, 4))
+    if r < 0.45:
+        return names
+    if r < 0.6:
+        return tuple(names)
+    if r < 0.8:
+        return {"o": repr(names), "k": rng.choice(ONE_SHOT)}
+    return ints_token(rng.sample([4, 5, 6, 7, 8, 9], rng.randrange(1, 4)), rng.choice(KINDS))
+
+
 def method_args(cls, name, rng):
     """plausible values of the NON-contextual parameters: ({param: value}, [extra positional])"""
     from rig.links import Links
@@ -399,7 +474,7 @@ def method_args(cls, name, rng):
     if cls == "BMPController":
         t = dict(send_scp=({}, [SCPCommands.sver]), get_software_version=({}, []),
                  set_power=(dict(state=rng.random() < 0.5, delay=0.0, post_power_on_delay=0.0), []),
-                 set_led=(dict(led=rng.randrange(8), action=rng.choice([None, True, False])), []),
+                 set_led=(dict(led=some_leds(rng), action=rng.choice([None, True, False])), []),
                  read_fpga_reg=(dict(fpga_num=rng.randrange(3), addr=4 * rng.randrange(64)), []),
                  write_fpga_reg=(dict(fpga_num=rng.randrange(3), addr=4 * rng.randrange(64), value=rng.randrange(1 << 32)), []),
                  read_adc=({}, []))
@@ -419,7 +494,7 @@ def method_args(cls, name, rng):
         write_vcpu_struct_field=(dict(field_name="user0", value=7), []),
         get_processor_status=({}, []), get_iobuf=({}, []), get_iobuf_bytes=({}, []), get_router_diagnostics=({}, []),
         iptag_set=(dict(iptag=1, addr="127.0.0.1", port=5000), []), iptag_get=(dict(iptag=1), []),
-        iptag_clear=(dict(iptag=1), []), set_led=(dict(led=1, action=rng.choice([None, True, False])), []),
+        iptag_clear=(dict(iptag=1), []), set_led=(dict(led=some_leds(rng), action=rng.choice([None, True, False])), []),
         fill=(dict(address=0x100, data=0, size=8 if aligned else 7), []),
         sdram_alloc=(dict(size=8, tag=rng.randrange(2), clear=rng.random() < 0.5), []),
         sdram_alloc_as_filelike=(dict(size=8, tag=rng.randrange(2), clear=rng.random() < 0.5), []),
@@ -427,8 +502,8 @@ def method_args(cls, name, rng):
         flood_fill_aplx=(dict(wait=rng.random() < 0.5), [aplx_file(), {(tx, ty): {3}}]),
         load_application=(dict(wait=rng.random() < 0.5, app_start_delay=0.0, n_tries=1), [aplx_file(), {(tx, ty): {3}}]),
         send_signal=(dict(signal=rng.choice(["stop", "start", "sync0"])), []),
-        count_cores_in_state=(dict(state="wait"), []),
-        wait_for_cores_to_reach_state=(dict(state="wait", count=1, poll_interval=0.0, timeout=None), []),
+        count_cores_in_state=(dict(state=some_states(rng)), []),
+        wait_for_cores_to_reach_state=(dict(state=some_states(rng), count=1, poll_interval=0.0, timeout=None), []),
         load_routing_tables=(dict(routing_tables={(tx, ty): rte}), []),
         load_routing_table_entries=(dict(entries=rte), []),
         get_routing_table_entries=({}, []), clear_routing_table_entries=({}, []), get_p2p_routing_table=({}, []),
@@ -623,6 +698,8 @@ def run_prog(w, prog, events):
 
 
 def run_impl(case):
+    _WRAPPED.clear()
+    del _KEEP[:]
     w = World(case["cls"], case["cfg"], case.get("init"))
     events = []
     raised = False
@@ -771,6 +848,9 @@ def evaluate(ctx, cases):
                     ctx.tag("conn:over-discovered-connection")
                 if any(isinstance(kv[1], dict) and "l" in kv[1] for kv in res["sent"]):
                     ctx.tag("boards-as-iterable:%s" % meth)
+                if case.get("label", "").startswith(("boards/", "explicit/")):
+                    ctx.tag(case["label"].split("/")[0] + ":" + "/".join(case["label"].split("/")[2:]) if case["label"].startswith("boards/")
+                            else "explicit-stream")
                 if case.get("uses_ctx"):
                     nontriv = True
             elif e["ev"] == "enter":
@@ -904,8 +984,8 @@ class Gen(object):
         if self.cls == "BMPController" and name in ("set_power", "set_led") and "board" in true \
                 and not (ctxvals and "board" in ctxvals) and rng.random() < 0.45:
             # boards given as an iterable (list or tuple) of distinct board numbers
-            bs = rng.sample(range(3), rng.randrange(1, 4))
-            true["board"] = {"l": bs, "t": 1} if rng.random() < 0.5 else {"l": bs}
+            # (kinds that can be iterated again: the context may serve several calls)
+            true["board"] = ints_token(rng.sample(range(3), rng.randrange(1, 4)), rng.choice(("list", "tuple", "set", "range")))
         pos, kw, need_ctx = [], [], {}
         if sig["hasVarargs"]:
             pos = [obj_token(o) for o in extra]
@@ -1133,6 +1213,62 @@ def extra_cases(ctx, rng, reps):
                 prog.append({"s": "block", "id": g.fresh_id(), "ctx": [[kk, v] for kk, v in nd.items()], "body": [st]})
             cases.append({"cls": mc, "cfg": cfg, "init": None, "prog": prog, "depth": 1, "uses_ctx": True,
                           "exc_exit": False, "label": "discover/%d" % k})
+    return cases
+
+
+def collection_cases(ctx, rng, reps):
+    """boards named by every kind of collection - int, list, tuple, set, range and the single-pass ones (iterator,
+    generator, map) - passed positionally, by keyword and through the enclosing context: one command per context"""
+    cases = []
+    cls = "BMPController"
+    for rep in range(reps):
+        for name in ("set_led", "set_power"):
+            for kind in ("int",) + KINDS:
+                for style in ("positional", "keyword", "context"):
+                    cfg = random_cfg(rng, cls)
+                    g = Gen(rng, cls, cfg)
+                    bs = rng.sample(range(3), rng.randrange(1, 4))
+                    board = bs[0] if kind == "int" else ints_token(bs, kind)
+                    st, need = g.call(name, style, ctxvals={"board": board})
+                    ctxd = [[k, v] for k, v in need.items()] + g.decoys([n for n in BMP_CTX if n not in need])
+                    rng.shuffle(ctxd)
+                    cases.append({"cls": cls, "cfg": cfg, "init": None,
+                                  "prog": [{"s": "block", "id": g.fresh_id(), "ctx": ctxd, "body": [st]}],
+                                  "depth": 1, "uses_ctx": bool(need), "exc_exit": False,
+                                  "label": "boards/%s/%s/%s" % (name, kind, style)})
+    return cases
+
+
+def explicit_cases(ctx, rng, reps):
+    """explicit != context != default, for EVERY decorated method of the signature table: every contextual
+    argument is given in the call (positionally, then by keyword) while an enclosing block sets ALL contextual
+    names of the controller to other values (and both differ from the defaults): every datagram of the - possibly
+    composite - operation must carry the explicit values, whatever the method body re-dispatches to"""
+    cases = []
+    for rep in range(reps):
+        for (cls, name) in sorted(signatures()):
+            if (cls, name) in _SKIP:
+                continue
+            for style in ("positional", "keyword"):
+                cfg = random_cfg(rng, cls)
+                if name in ("discover_connections", "get_system_info"):
+                    cfg["machine"] = random_machine(rng)
+                g = Gen(rng, cls, cfg)
+                st, need = g.call(name, style)
+                assert not need
+                if name == "application":
+                    probe = g.call("send_signal", "default")[0]
+                    st = {"s": "app", "id": st["id"], "pos": st["pos"], "kw": st["kw"], "stop_fails": False, "body": [probe]}
+                elif cls == "MachineController" and rng.random() < 0.3:
+                    st["fault"] = random_fault(rng, name)
+                    if name == "wait_for_cores_to_reach_state":
+                        st["fault"] = None
+                ctxd = g.decoys(ctx_names(cls))
+                rng.shuffle(ctxd)
+                cases.append({"cls": cls, "cfg": cfg, "init": g.decoys(["app_id"]) if cls == "MachineController" and rng.random() < 0.5 else None,
+                              "prog": [{"s": "block", "id": g.fresh_id(), "ctx": ctxd, "body": [st]}],
+                              "depth": 1, "uses_ctx": True, "exc_exit": False,
+                              "label": "explicit/%s.%s/%s" % (cls, name, style)})
     return cases
 
 
@@ -1407,6 +1543,20 @@ def check_signature_table(ctx):
             ctx.broken.append("no wire rule for %s.%s (new decorated method: extend bodyOf)" % key)
         elif not s["rule_ok"] or not s["chip_known"]:
             ctx.broken.append("wire rule of %s.%s does not address the chip / board its signature names" % key)
+    # every decorated method a decorated method calls directly (or hands on as a bound method) must be an
+    # inner call of its wire rule: composite operations re-dispatch through the decorator
+    from harness import common
+    from harness.gen import c18 as gmod
+    n_inner = 0
+    for key, callees in sorted(gmod.read_inner_calls(common.REPO).items()):
+        have = set(got.get(key, {}).get("calls", []))
+        if key[1] == "application":
+            callees = [c for c in callees if c != "send_signal"]     # its callback: modelled by `enter` of the object
+        n_inner += len(callees)
+        for c in callees:
+            if c not in have:
+                ctx.broken.append("wire rule of %s.%s lacks the inner call of %s the source makes" % (key[0], key[1], c))
+    ctx.extra["inner_calls_in_source"] = n_inner
     ctx.extra["decorated_methods"] = len(signatures())
     ctx.extra["symbolic_requests"] = sum(s["n_rules"] for s in got.values())
     _MODEL_CORE[0] = sorted("%s.%s" % k for k, s in got.items() if s["core_from_context"])
@@ -1480,7 +1630,7 @@ def run(ctx):
     ctx.extra["rule"] = RULE
     ctx.assumptions += [
         "blocks are `with` statements (well-bracketed enter/exit); a context object may be kept and entered any number of times, also while active; it is used with the controller that created it; callbacks are registered before the first entry",
-        "board arguments are ints or non-empty lists / tuples of distinct non-negative ints (set_power / set_led only: the other BMP methods document a single board); led arguments are ints",
+        "board arguments are ints or non-empty collections (list, tuple, set, range, iterator, generator, map) of distinct non-negative ints (set_power / set_led only: the other BMP methods document a single board); a single-pass iterable is used for one command",
         "the transcription `bodyOf` of which requests / inner decorated calls a method makes is validated by exhaustive-over-methods correspondence, not proved; what IS proved about it: wire_carries_resolved and the passing-style theorems",
         "whether a method body fails (SCP error, failed allocation) is taken from the implementation run as an input of the model; the connection table rewritten by discover_connections is observed per datagram, not predicted",
     ]
@@ -1491,6 +1641,8 @@ def run(ctx):
         cases = systematic_cases(ctx, rng, ctx.scale(1, 6) * mult)
         cases += extra_cases(ctx, rng, ctx.scale(1, 8) * mult)
         cases += reuse_cases(ctx, rng, ctx.scale(3, 40) * mult)
+        cases += collection_cases(ctx, rng, ctx.scale(2, 12) * mult)
+        cases += explicit_cases(ctx, rng, ctx.scale(3, 24) * mult)
         cases += random_cases(ctx, rng, ctx.scale(400, 40000) * mult)
         for i in range(0, len(cases), 2000):
             evaluate(ctx, cases[i:i + 2000])
